@@ -5,7 +5,7 @@
  *          END
  * The document is copied into an exact-size heap block (one byte over is an ASan report). The program is one
  * letter per callback invocation, in invocation order: D = aws_xml_node_traverse with the same callback (user data =
- * depth + 1), B = aws_xml_node_as_body, S = return success without touching the node, A = raise an error and return
+ * depth + 1; d = the same but the callback returns success whatever the traversal returned), B = aws_xml_node_as_body, S = return success without touching the node, A = raise an error and return
  * AWS_OP_ERR; invocations beyond the end of the program skip. The tree / preamble json and `cut` are only echoed: they
  * tell the specification which element tree the document was rendered from (XmlTrace.tla re-renders and compares).
  *
@@ -80,12 +80,15 @@ static int on_node(struct aws_xml_node *node, void *ud) {
     }
     vh_int("bad", bad);
     vh_end();
-    if (act == 'D') {
+    if (act == 'D' || act == 'd') {
         rc = aws_xml_node_traverse(node, on_node, (void *)(intptr_t)(depth + 1));
         vh_begin("Ret");
         vh_int("d", depth);
         vh_rc(rc);
         vh_end();
+        if (act == 'd') {
+            return AWS_OP_SUCCESS; /* a callback that does not hand the nested result back: the parser remembers failures itself */
+        }
     }
     return rc;
 }
